@@ -81,6 +81,9 @@ type JApiCore struct {
 	// are processed.
 	expandedDirectives int
 
+	// includedFiles counts the INCLUDE directives followed, see maxIncludedFiles.
+	includedFiles int
+
 	// uniqOperationID used for checking the uniqueness of the OperationId.
 	uniqOperationID map[string]struct{}
 }
